@@ -53,6 +53,32 @@ theorem runStack_shift : ∀ (fuel : Nat) (ts : TS) (d : Nat), runStack fuel (ts
       rw [ih]
       rfl
 
+theorem runStackErrs_shift : ∀ (fuel : Nat) (ts : TS) (d : Nat), runStackErrs fuel (ts.shift d) = runStackErrs fuel ts := by
+  intro fuel
+  induction fuel with
+  | zero => intro ts d; rfl
+  | succ n ih =>
+    intro ts d
+    simp only [runStackErrs, shift_cleanups]
+    cases hc : ts.cleanups with
+    | nil => rfl
+    | cons c rest =>
+      simp only []
+      have h1 : ({ ts.shift d with cleanups := rest } : TS) = ({ ts with cleanups := rest } : TS).shift d := rfl
+      rw [h1, ctree_run_shift]
+      simp only [COut.shift]
+      rw [ih]
+
+/-- the panic context of the cleanup phase does not depend on the draw counter -/
+theorem cleanupCtx_shift (res : Except Err Val) (ts : TS) (d : Nat) : cleanupCtx res (ts.shift d) = cleanupCtx res ts := by
+  simp only [cleanupCtx, shift_ctx]
+  cases hc : ts.ctx with
+  | none => simp only [shift_cleanups, runStackErrs_shift]
+  | some id =>
+    simp only []
+    have h1 : ({ ts.shift d with ctx := none } : TS) = ({ ts with ctx := none } : TS).shift d := rfl
+    rw [h1, shift_cleanups, runStackErrs_shift]
+
 theorem cleanupPhase_shift (ts : TS) (d : Nat) : cleanupPhase (ts.shift d) = (cleanupPhase ts).shift d := by
   simp only [cleanupPhase, shift_ctx]
   cases hc : ts.ctx with
@@ -184,7 +210,7 @@ theorem checkOnce_clean (p : Prog) (src : Src) {ts : TS} (h : Clean ts) :
     (checkOnce p src ts).src = (checkOnce p src TS.fresh).src := by
   have e1 := clean_eq_shift h
   have e2 : ({ TS.fresh with ctxCount := 0 } : TS) = TS.fresh := rfl
-  simp only [checkOnce_def, e1, e2, run_shift, shift_ts, cleanupPhase_shift, shift_res, shift_src, shift_used,
+  simp only [checkOnce_def, e1, e2, run_shift, shift_ts, cleanupPhase_shift, cleanupCtx_shift, shift_res, shift_src, shift_used,
     shift_kept, shift_evs]
   simp [COut.shift]
 
